@@ -31,7 +31,6 @@ Fixpoint foldM {A S} (f : S -> A -> res S) (l : list A) (s : S) : res S :=
   end.
 
 (* ---------- DataContext ---------- *)
-Inductive tagged := TNone (* NonexistentOptional *) | TSome (v : fv).
 Inductive vov := VValue (v : fv) | VVec (l : list vov).      (* ValueOrVec *)
 
 Inductive ctx := mkCtx {
@@ -105,25 +104,6 @@ Definition ensure_unsuspended (c : ctx) : res ctx :=
             | [] => Panic "mod.rs:ensure_unsuspended pop().unwrap()"
             end
   | Some _ => Ok c
-  end.
-
-Fixpoint lookup_ref {A} (k : fieldref) (l : list (fieldref * A)) : option A :=
-  match l with
-  | [] => None
-  | (k', a) :: r => if fieldref_eqb k k' then Some a else lookup_ref k r
-  end.
-(* BTreeMap::insert: replace or add *)
-Fixpoint insert_ref {A} (k : fieldref) (a : A) (l : list (fieldref * A)) : list (fieldref * A) :=
-  match l with
-  | [] => [(k, a)]
-  | (k', a') :: r => if fieldref_eqb k k' then (k, a) :: r else (k', a') :: insert_ref k a r
-  end.
-(* BTreeMap::remove(..).unwrap() *)
-Fixpoint remove_ref {A} (k : fieldref) (l : list (fieldref * A)) : option (list (fieldref * A)) :=
-  match l with
-  | [] => None
-  | (k', a') :: r => if fieldref_eqb k k' then Some r
-                     else match remove_ref k r with Some r' => Some ((k', a') :: r') | None => None end
   end.
 
 Definition fv_key_eqb (a b : N * string) : bool := N.eqb (fst a) (fst b) && String.eqb (snd a) (snd b).
@@ -513,6 +493,69 @@ Section WithWorld.
     then Panic "execution.rs:compute_fold assert_eq!(disjoint folded_values)"
     else Ok (set_folded_values c (fvals1 ++ local)).
 
+  (* ---- compute_fold, for the fold `h` of the component (vs, ss) whose sub-component is run by `sub_compute` ---- *)
+  Definition fold_step (vs : list ir_vertex) (ss : list step) (h : fold_hdr) (sub : ir_component)
+             (sub_compute : list ctx -> res (list ctx)) (cs : list ctx) : res (list ctx) :=
+    do from <- vertex_of vs (fo_from h);
+    (* imported tags *)
+    do cs1 <- foldM (fun cs t =>
+               match t with
+               | FRContext cf =>
+                   do fvtx <- vertex_of vs (cf_vid cf);
+                   mapM (fun c =>
+                           do c1 <- activate_vertex c (cf_vid cf);
+                           let value := resolve_prop (v_type fvtx) (cf_name cf) c1 in
+                           do ov <- vertex_at c1 (cf_vid cf);
+                           let tv := match ov with Some _ => TSome value | None => TNone end in
+                           Ok (set_imported c1 (insert_ref t tv (imported_tags c1)))) cs
+               | FRFold ff =>
+                   mapM (fun c => do tv <- fold_count_value (ff_eid ff) c;
+                                  Ok (set_imported c (insert_ref t tv (imported_tags c)))) cs
+               end) (fo_imported h) cs;
+    do cs2 <- mapM (fun c => activate_vertex c (fo_from h)) cs1;
+    do maxl <- get_max_fold_count_limit h;
+    do minl0 <- get_min_fold_count_limit h;
+    let minl := match minl0 with
+                | Some m =>
+                    if (match c_outputs sub with [] => true | _ => false end)
+                       && (match fo_fsout h with [] => true | _ => false end)
+                       && negb (has_tag_on_fold_count vs h)
+                    then Some m else None
+                | None => None
+                end in
+    do cs3 <- filter_mapM (fun c =>
+               let ns := resolve_nbrs (v_type from) (fo_name h) (fo_params h) c in
+               let imported := imported_tags c in
+               do computed <- sub_compute (map (fun n => set_imported (ctx_new (Some n)) imported) ns);
+               do ov <- vertex_at c (fo_from h);
+               match (match ov with
+                      | Some _ => match collect_fold_elements computed maxl minl with
+                                  | Some els => Some (Some els)
+                                  | None => None
+                                  end
+                      | None => Some None
+                      end) with
+               | None => Ok None
+               | Some fold_elements =>
+                   if has_key_N (fo_eid h) (folded_contexts c)
+                   then Panic "execution.rs:compute_fold folded_contexts.insert_or_error"
+                   else
+                     let c1 := set_folded_contexts c (folded_contexts c ++ [(fo_eid h, fold_elements)]) in
+                     let imp := fold_left (fun m t => match remove_ref t m with Some m' => m' | None => m end)
+                                          (fo_imported h) (imported_tags c1) in
+                     Ok (Some (set_imported c1 imp))
+               end) cs2;
+    (* post-fold filters *)
+    do cs4 <- foldM (fun cs pf =>
+               do cs' <- mapM (fun c => do tv <- fold_count_value (fo_eid h) c;
+                                        match tv with
+                                        | TSome v => Ok (push_value c v)
+                                        | TNone => Ok (push_value c Null)   (* fold inside a missing optional: placeholder, the filter passes *)
+                                        end) cs;
+               filter_stage vs ss (fo_from h) (v_type from) (pf_op pf) (pf_arg pf) cs')
+             (fo_post h) cs3;
+    mapM (fold_outputs_one h sub) cs4.
+
   (* ---- the component interpreter ---- *)
   Fixpoint compute_component (c : ir_component) (cs : list ctx) {struct c} : res (list ctx) :=
     match c with
@@ -523,70 +566,17 @@ Section WithWorld.
            match todo with
            | [] => Ok cs
            | SEdge e :: r => do cs' <- expand_edge vs ss e cs; go r cs'
-           | SFold h sub :: r =>
-               (* --- compute_fold --- *)
-               do from <- vertex_of vs (fo_from h);
-               (* imported tags *)
-               do cs1 <- foldM (fun cs t =>
-                          match t with
-                          | FRContext cf =>
-                              do fvtx <- vertex_of vs (cf_vid cf);
-                              mapM (fun c =>
-                                      do c1 <- activate_vertex c (cf_vid cf);
-                                      let value := resolve_prop (v_type fvtx) (cf_name cf) c1 in
-                                      do ov <- vertex_at c1 (cf_vid cf);
-                                      let tv := match ov with Some _ => TSome value | None => TNone end in
-                                      Ok (set_imported c1 (insert_ref t tv (imported_tags c1)))) cs
-                          | FRFold ff =>
-                              mapM (fun c => do tv <- fold_count_value (ff_eid ff) c;
-                                             Ok (set_imported c (insert_ref t tv (imported_tags c)))) cs
-                          end) (fo_imported h) cs;
-               do cs2 <- mapM (fun c => activate_vertex c (fo_from h)) cs1;
-               do maxl <- get_max_fold_count_limit h;
-               do minl0 <- get_min_fold_count_limit h;
-               let minl := match minl0 with
-                           | Some m =>
-                               if (match c_outputs sub with [] => true | _ => false end)
-                                  && (match fo_fsout h with [] => true | _ => false end)
-                                  && negb (has_tag_on_fold_count vs h)
-                               then Some m else None
-                           | None => None
-                           end in
-               do cs3 <- filter_mapM (fun c =>
-                          let ns := resolve_nbrs (v_type from) (fo_name h) (fo_params h) c in
-                          let imported := imported_tags c in
-                          do computed <- compute_component sub
-                                           (map (fun n => set_imported (ctx_new (Some n)) imported) ns);
-                          do ov <- vertex_at c (fo_from h);
-                          match (match ov with
-                                 | Some _ => match collect_fold_elements computed maxl minl with
-                                             | Some els => Some (Some els)
-                                             | None => None
-                                             end
-                                 | None => Some None
-                                 end) with
-                          | None => Ok None
-                          | Some fold_elements =>
-                              if has_key_N (fo_eid h) (folded_contexts c)
-                              then Panic "execution.rs:compute_fold folded_contexts.insert_or_error"
-                              else
-                                let c1 := set_folded_contexts c (folded_contexts c ++ [(fo_eid h, fold_elements)]) in
-                                let imp := fold_left (fun m t => match remove_ref t m with Some m' => m' | None => m end)
-                                                     (fo_imported h) (imported_tags c1) in
-                                Ok (Some (set_imported c1 imp))
-                          end) cs2;
-               (* post-fold filters *)
-               do cs4 <- foldM (fun cs pf =>
-                          do cs' <- mapM (fun c => do tv <- fold_count_value (fo_eid h) c;
-                                                   match tv with
-                                                   | TSome v => Ok (push_value c v)
-                                                   | TNone => Ok (push_value c Null)   (* fold inside a missing optional: placeholder, the filter passes *)
-                                                   end) cs;
-                          filter_stage vs ss (fo_from h) (v_type from) (pf_op pf) (pf_arg pf) cs')
-                        (fo_post h) cs3;
-               do cs5 <- mapM (fold_outputs_one h sub) cs4;
-               go r cs5
+           | SFold h sub :: r => do cs' <- fold_step vs ss h sub (compute_component sub) cs; go r cs'
            end) ss cs0
+    end.
+
+  (* the step loop on its own (definitionally the inner loop of compute_component) *)
+  Fixpoint exec_steps (vs : list ir_vertex) (ss : list step) (todo : list step) (cs : list ctx) {struct todo}
+    : res (list ctx) :=
+    match todo with
+    | [] => Ok cs
+    | SEdge e :: r => do cs' <- expand_edge vs ss e cs; exec_steps vs ss r cs'
+    | SFold h sub :: r => do cs' <- fold_step vs ss h sub (compute_component sub) cs; exec_steps vs ss r cs'
     end.
 
   (* ---- construct_outputs ---- *)
